@@ -22,6 +22,7 @@ RULE = (
     "with / without n_final_samples, with / without a checkpoint callback at the generated cadence, resumed from one of those checkpoints, interrupted at a generated likelihood call and resumed => identical evidence; "
     "another generator seed leaves r_1 unchanged. Non-trivial = >=2 iterations with non-constant incremental weights."
 )
+RULE += " " + ('Also generated: results returned in another output namespace (sample_posterior(xp=...)); runs on a sampler object that has already completed an unrelated run.')
 ASSUMPTIONS = [
     "kernel packages are harness doubles; aspire's loop/resampling/accumulation code runs unmodified",
     "tolerance for recomputed ratios: 64*eps*(max|incremental log w|+1)+N*eps absolute; variances 64*N*eps relative + 256*eps/N absolute (cancellation in Var(u) when weights are nearly equal) + 16*eps*max|incremental log w|*(v+sqrt(v/N)) (rounding of log-weight differences of magnitude up to 1e8)",
